@@ -298,6 +298,14 @@ def _drive(case, root, log_fd):
         return real_dump(data, stream=stream, **k)
     if case['pre_notify'] is not None:
         em._cache_notify(case['pre_notify'])
+    # readers that opened an entry BEFORE the publisher ran and keep it open: replacing or removing a name never changes
+    # what they read (the old inode stays complete); writing into the existing file does
+    held = {}
+    for n in os.listdir(cache_dir):
+        hp = os.path.join(cache_dir, n)
+        if not n.startswith('.') and os.path.isfile(hp) and not os.path.islink(hp):
+            hf = open(hp, 'rb')
+            held[n] = (hf, hf.read())
     eventmgr.EventMgr._cache = w_cache
     os.unlink, os.fchmod, os.replace, os.stat = w_unlink, w_fchmod, w_replace, w_stat
     tempfile.NamedTemporaryFile, yamlwrapper.dump = w_ntf, w_dump
@@ -311,6 +319,13 @@ def _drive(case, root, log_fd):
         eventmgr.EventMgr._cache = real_cache
         os.unlink, os.fchmod, os.replace, os.stat = real_unlink, real_fchmod, real_replace, real_stat
         tempfile.NamedTemporaryFile, yamlwrapper.dump = real_ntf, real_dump
+        for n, (hf, was) in sorted(held.items()):
+            hf.seek(0)
+            now = hf.read()
+            hf.close()
+            if now != was:
+                log('W', json.dumps({'name': n, 'was': was.decode('utf-8', 'replace')[:120],
+                                     'now': now.decode('utf-8', 'replace')[:120]}))
     if case['post_notify'] is not None:
         em._cache_notify(case['post_notify'])
     log('E', '%d %s' % (outcome, err.replace('\n', ' ')[:200]))
@@ -375,12 +390,13 @@ def impl_run(case):
                     parsed = None
                 reader.update({'parsed': parsed if isinstance(parsed, dict) else None,
                                'is_dict': isinstance(parsed, dict)})
+        inplace = [json.loads(l[1]) for l in lines if l[0] == 'W']
         import glob as _glob
         listing = sorted(os.listdir(cache_dir))
         globbed = sorted(os.path.basename(p) for p in _glob.glob(os.path.join(cache_dir, '*')))
         entries = {n: _read_entry(os.path.join(cache_dir, n), yaml) for n in listing}
         return {'outcome': outcome, 'error': err, 'order': order, 'fired': fired, 'listing': listing,
-                'globbed': globbed, 'entries': entries, 'reader': reader}
+                'globbed': globbed, 'entries': entries, 'reader': reader, 'inplace': inplace}
     finally:
         shutil.rmtree(root, ignore_errors=True)
 
@@ -435,6 +451,12 @@ def oracle(case, o):
             out.append(('partial-or-foreign-manifest-visible',
                         'a reader opening cache/%s immediately after os.replace returned sees neither the old content '
                         'nor the complete merged manifest: %r' % (n, (rd.get('text') or '')[:200])))
+    # a reader that had the entry open before the update keeps reading the complete old manifest: an update replaces the
+    # name, it never writes into the published file (which would expose an empty / half-written manifest on the way)
+    for w in o.get('inplace') or []:
+        out.append(('published-entry-written-in-place',
+                    'cache/%s was rewritten through its existing inode: a reader holding it open read %r before and %r '
+                    'after the synchronisation' % (w['name'], w['was'], w['now'])))
     # dot files: untouched; a kill may leave exactly one temporary file
     new_dots = [n for n in o['listing'] if n.startswith('.') and n not in prior and n != READY]
     for n in prior:
